@@ -34,22 +34,22 @@ theorem not_run_before_owner (cfg : Cfg) (ls : List Label) (s : State)
     runsOf s.hist p = 0 :=
   (xr_reachable cfg ls s h).2.pre t p hp
 
-theorem xl_reachable (cfg : Cfg) (hif : ∀ tp, cfg.iface tp = false) (ls : List Label) (s : State)
+theorem xl_reachable (cfg : Cfg) (ls : List Label) (s : State)
     (hg : GuardedRun cfg SinkGuard State.init ls) (h : run cfg State.init ls = some s) :
     XInv s ∧ LInv s :=
   run_invG cfg SinkGuard (fun s => XInv s ∧ LInv s)
-    (fun _ _ _ _ hg hi hs => ⟨hi.1.step hs, LInv.step hif hi.1 hg hi.2 hs⟩) ls State.init s hg
+    (fun _ _ _ _ hg hi hs => ⟨hi.1.step hs, LInv.step hi.1 hg hi.2 hs⟩) ls State.init s hg
     ⟨XInv.init, LInv.init⟩ h
 
 /-- `exclusive_progress`: deadlock freedom under the documented discipline of `DecodeExclusive`.
 In every state reachable by a trace in which exclusive decodes are not nested and decode functions
-do not panic (no interface-typed nil values: `hif`), if some thread is inside a call then some
+do not panic, if some thread is inside a call then some
 thread can continue its current call (leave `Get`/a hook, or return from its decode function). -/
-theorem exclusive_progress (cfg : Cfg) (hif : ∀ tp, cfg.iface tp = false) (ls : List Label) (s : State)
+theorem exclusive_progress (cfg : Cfg) (ls : List Label) (s : State)
     (hg : GuardedRun cfg SinkGuard State.init ls) (h : run cfg State.init ls = some s)
     (t : Tid) (hne : s.thr t ≠ []) :
     ∃ t', (step cfg s t' .go).isSome = true ∨ (step cfg s t' (.fnRet (.err (.fn 0)))).isSome = true := by
-  obtain ⟨hx, hl⟩ := xl_reachable cfg hif ls s hg h
+  obtain ⟨hx, hl⟩ := xl_reachable cfg ls s hg h
   -- a thread whose top frame is not a waiter can always continue
   have hfree : ∀ t0 f rest, s.thr t0 = f :: rest → (∀ k p, f ≠ .exWait k p) →
       (step cfg s t0 .go).isSome = true ∨ (step cfg s t0 (.fnRet (.err (.fn 0)))).isSome = true := by
@@ -76,7 +76,7 @@ theorem exclusive_progress (cfg : Cfg) (hif : ∀ tp, cfg.iface tp = false) (ls 
           cases res with
           | panic => exact absurd ho hnp
           | err er => simp
-          | ok v => simp [assertPanics, hif]
+          | ok v => simp
       | false =>
         -- the pending is open: its owner exists and is not itself waiting
         have hp : p < s.npend := hx.frames t (.exWait k p) (by rw [e]; simp)
@@ -104,7 +104,7 @@ theorem exclusive_progress (cfg : Cfg) (hif : ∀ tp, cfg.iface tp = false) (ls 
 object, racing with a plain decode of that object whose function starts the exclusive decode —
 satisfies the guard; here thread 1 waits for the pending owned by thread 0. -/
 example :
-    let cfg : Cfg := ⟨fun _ => .direct, fun _ => false, true⟩
+    let cfg : Cfg := ⟨fun _ => .direct, true⟩
     let ls : List Label :=
       [(0, .callExcl (.ref 1) 0 []), (0, .go), (1, .callDecode (.ref 2) 0 []), (1, .go),
        (1, .callExcl (.ref 1) 0 []), (0, .go), (0, .callDecode (.ref 2) 0 [])]
